@@ -2,6 +2,7 @@ package lab
 
 import (
 	"fmt"
+	"strings"
 
 	"github.com/element-of-surprise/coercion/plugins/registry"
 	"github.com/element-of-surprise/coercion/workflow"
@@ -95,6 +96,30 @@ func (d Durable) status(tag string) workflow.Status {
 	return workflow.NotStarted
 }
 
+// hasResult: the action had durably finished or had a durable completed attempt.
+func (d Durable) hasResult(tag string) bool {
+	o, ok := d[tag]
+	if !ok {
+		return false
+	}
+	if finished(o.Status) {
+		return true
+	}
+	for _, a := range o.Attempts {
+		if a != nil && !a.End.IsZero() {
+			return true
+		}
+	}
+	return false
+}
+
+func (d Durable) attempts(tag string) int {
+	if o, ok := d[tag]; ok {
+		return len(o.Attempts)
+	}
+	return 0
+}
+
 func finished(s workflow.Status) bool { return s == workflow.Completed || s == workflow.Failed }
 
 // successDurable: "a sequence action whose success was already durable".
@@ -140,8 +165,18 @@ func CheckC09(sc *Scenario, d Durable, rr *RunResult, where string, res *vprop.R
 			if r.Block >= 0 {
 				btag := fmt.Sprintf("%s/b%d", ptag, r.Block)
 				if finished(d.status(btag)) {
-					res.Fail("C09/finished-block-rerun", "%s: block %s was durably %v at the crash but %s#%d was invoked after restart\n%s", where, btag, d.status(btag), inv.Tag, inv.N, FormatEvents(rr.Events, 40))
-					return
+					// Re-running a finished block = executing again something of it that had already been executed: any of
+					// its sequence actions, or a check action that had durably finished. Its deferred checks may have been
+					// cut short by the crash (the block's Failed status is durable before they run); an action that was
+					// "in flight, durably Running without a durable result" or had never been invoked is not executed
+					// *again* (and C10 demands that those deferred checks do run).
+					// A check group that was itself in the middle of a run is re-run as a whole by the engine (that is how
+					// checks are resumed everywhere); only a group that had durably finished counts as executed again.
+					gtag := inv.Tag[:strings.LastIndex(inv.Tag, "/")]
+					if r.IsSeq() || finished(d.status(gtag)) {
+						res.Fail("C09/finished-block-rerun", "%s: block %s was durably %v at the crash but %s#%d (durably %v, %d attempts) was invoked after restart\n%s", where, btag, d.status(btag), inv.Tag, inv.N, d.status(inv.Tag), d.attempts(inv.Tag), FormatEvents(rr.Events, 40))
+						return
+					}
 				}
 			}
 			if r.IsSeq() {
@@ -339,6 +374,9 @@ func RunCrashCase(c *CrashCase, which string, res *vprop.Result) {
 			vprop.Count("second_crash_points", 1)
 			where2 := fmt.Sprintf("%s, then second crash after write %d of %d of the recovery (%s %v)", where, j, len(w1), w1[j-1].Tag, w1[j-1].State.Status)
 			if !judge(d2, rr2, where2) {
+				if getenvInt("VERIF_EVENTS") > 0 && len(res.Violations) > 0 {
+					res.Violations[len(res.Violations)-1].Msg += "\n--- log of the first recovery (crashed after its write " + fmt.Sprint(j) + "):\n" + FormatEvents(rr1.Events, 40)
+				}
 				return
 			}
 		}
